@@ -19,6 +19,7 @@ fn lookup(engine: &str) -> Option<par::WorkerFn> {
         "wire" => Some(engines::wire::worker),
         "wal" => Some(engines::wal::worker),
         "btree" => Some(engines::btree::worker),
+        "tuple" => Some(engines::tuple::worker),
         _ => None,
     }
 }
@@ -31,6 +32,7 @@ fn check(prop: &str, tier: &str) -> i32 {
         "C08" => props_crash::c08(tier),
         "C03" => props_seq::c03(tier),
         "C20" => props_flat::c20(tier),
+        "C18" => props_flat::c18(tier),
         "C17" => props_comp::c17(tier),
         "C10" => props_comp::c10(tier),
         "C11" => props_comp::c11(tier),
